@@ -246,6 +246,8 @@ def genOp (op : String) (pat : String) (args : List String) : Option String := d
   | "ffg.legendre", [x] => pure (toString (ffg_Element_Legendre ((← parseNat? x) % Gen.ffg_modulus)))
   | "ffg.div", [x, y] => pure (toString (ffg_Element_Div 0 ((← parseNat? x) % Gen.ffg_modulus) ((← parseNat? y) % Gen.ffg_modulus)).1)
   | "ffg.batchinv", [l] => pure (showList toString (ffg_BatchInvert ((← parseNatList? l).map (· % Gen.ffg_modulus))))
+  | "ffg.inverse", [x] => pure (toString (ffg_Element_Inverse 123456789 ((← parseNat? x) % Gen.ffg_modulus)).1)
+  | "ffg.halve", [x] => pure (toString (ffg_Element_Halve ((← parseNat? x) % Gen.ffg_modulus)))
   | "ffg.sqrt", [x] =>
     match ffg_Element_Sqrt 123456789 ((← parseNat? x) % Gen.ffg_modulus) with
     | (_, false) => pure "DIVERGED"
